@@ -8,7 +8,7 @@ HERE = os.path.dirname(os.path.dirname(os.path.abspath(__file__)))
 sys.path.insert(0, HERE)
 from harness import REGISTRY  # noqa: E402
 
-TECH = "bounded symbolic execution of the real Python source (sx engine: import-hook AST rewrite + proxy values), z3 QF_BV deciding every branch and assertion; counterexamples replayed on the un-instrumented code"
+TECH = "bounded symbolic execution of the real Python source (sx engine: import-hook AST rewrite + proxy values), z3 deciding every branch and assertion (QF_BV; linear-arithmetic queries that bit-blasting leaves undecided go to a second, integer-sort encoding of the same path condition); counterexamples replayed on the un-instrumented code"
 
 INFO = {
     "C01": {
@@ -62,7 +62,7 @@ INFO = {
         "ref": "DESIGN.md 4 C10",
     },
     "C11": {
-        "text": "NACK generator and retransmission step checks from symbolic states and a closed-loop BMC of the real sender/receiver RTP path over stub transports with solver-chosen loss/duplication/reordering.",
+        "text": "NACK generator and retransmission step checks from symbolic states and a closed-loop BMC of the real sender/receiver RTP path over stub transports with solver-chosen loss/duplication/reordering; NACKs also travel serialised (RtcpRtpfbPacket bytes -> parse) before the sender handles them.",
         "note": "Bounds: <=3 frames x <=2 packets, <=6 network events; SRTP, real codecs and pacing outside.",
         "ref": "DESIGN.md 4 C11",
     },
@@ -77,14 +77,14 @@ INFO = {
         "ref": "DESIGN.md 4 C13",
     },
     "C14": {
-        "text": "BMC over API call sequences on two real RTCPeerConnection objects driven on a private real event loop: at every step the solver chooses the peer, the call (createOffer, createAnswer, setLocal offer/answer/implicit, setRemote offer/answer/defective with 7 defect kinds, close); after every call signalingState and both descriptions are compared with the JSEP table, failing calls must raise InvalidStateError / ValueError and leave everything unchanged, closed must be absorbing.",
-        "note": "Bounds: every sequence of <=3 (quick) / <=4 calls on either peer; offerer with a data channel or data channel + audio transceiver. All data is concrete here (the solver decides the call sequence and the injected defect); pranswer/rollback outside.",
+        "text": "BMC over API call sequences on two real RTCPeerConnection objects driven on a private real event loop: at every step the solver chooses the peer, the call (createOffer, createAnswer, setLocal offer/answer/implicit, setRemote offer/answer/defective with 7 defect kinds, close); after every call signalingState and both descriptions are compared with the JSEP table, failing calls must raise InvalidStateError / ValueError and leave everything unchanged, a successful set*Description must be what local/remoteDescription then report, closed must be absorbing. Explored from the initial state and from the state after one completed offer/answer round.",
+        "note": "Bounds: every sequence of <=3 (quick) / <=4 calls on either peer (2 / <=3 after a completed round); offerer with a data channel or data channel + audio transceiver. All data is concrete here (the solver decides the call sequence and the injected defect); pranswer/rollback outside.",
         "ref": "DESIGN.md 4 C14",
     },
     "C15": {
-        "text": "Partial: RateCounter window arithmetic (BMC over add/rate sequences with symbolic times and sizes), the AIMD helpers _near_max_rate_increase / _additive_rate_increase / _clamp_bitrate (1.5x + 10 kbit/s bound, no exception), the estimator orchestration (SSRC list, REMB encodability) with the Kalman/over-use pipeline and the AIMD update stubbed by arbitrary values, and a concrete-count run with 256 SSRCs.",
-        "note": "Not claimed: AimdRateControl.update itself (round(0.85*T), sqrt, pow: floats beyond the rational abstraction), the 85 % cut, InterArrival / OveruseEstimator / OveruseDetector numerics. Bounds: window 2..3 (quick) / 2..8 ms, sequences of 4..5 calls, <=3 packets in the orchestration. Quotients of integers are evaluated as exact rationals; the sites are listed in evidence.",
-        "ref": "DESIGN.md 4 C15",
+        "text": "Partial: RateCounter window arithmetic (BMC over add/rate sequences with symbolic times and sizes); AimdRateControl.update executed from an arbitrary controller state for 1..3 consecutive calls (never raises, an estimate that rises stays <= 1.5 x latest measurement + 10 kbit/s, over-use cuts to <= 85 % of the latest measurement) with its two pow/float helpers replaced by their integer contracts, which are checked separately (_near_max_rate_increase / _additive_rate_increase / _clamp_bitrate); the estimator orchestration (SSRC list, REMB encodability, measurement window) with the Kalman/over-use pipeline stubbed by arbitrary values; a concrete-count run with 256 SSRCs.",
+        "note": "Not claimed: InterArrival / OveruseEstimator / OveruseDetector numerics (float recursion), avg_max_bitrate_kbps other than None/1000.0 (sqrt). Bounds: window 2..3 (quick) / 2..8 ms, sequences of 4..5 calls, <=3 packets in the orchestration, rates 0..2^32-1. Quotients of integers are exact rationals; round(0.85*T) is over-approximated by an integer band (DESIGN 10.2); sites are listed in evidence. The linear arithmetic of update() is decided on the integer mirror of the path condition.",
+        "ref": "DESIGN.md 4 C15, 10.2",
     },
     "C16": {
         "text": "Round trip of the real H.264 and VP8 packetisers/depacketisers with symbolic NAL header bits and contents over a boundary sweep of sizes; payload size limit, FU-A S/E bits, STAP-A recovery and VP8 descriptor round trip are asserted.",
